@@ -255,6 +255,22 @@ pub fn heap_text(heap: &HashMap<u16, Value>) -> String {
     ks.iter().map(|k| format!("{}={}", k, value_text(&heap[k]))).collect::<Vec<_>>().join(";")
 }
 
+thread_local! {
+    /// (bytes allocated, largest single allocation, weight, size of the inputs) of the execution `run_line` did last
+    pub static LAST_ALLOC: std::cell::Cell<(u64, u64, u128, u64)> = std::cell::Cell::new((0, 0, 0, 0));
+}
+
+/// C11: what an execution allocates is bounded by what its weight pays for.  The bounds are generous multiples of
+/// what the unchanged interpreter needs (see DESIGN): 16 KiB + 2 KiB per unit of weight in total, and no single
+/// allocation beyond 32 KiB plus the size of the inputs (the unchanged interpreter stays below 4 KiB: ropes are chunked).
+pub fn alloc_fact(out: &mut Out) {
+    let (total, max, w, insz) = LAST_ALLOC.with(|c| c.get());
+    let w64 = w.min(u64::MAX as u128 / 4096) as u64;
+    let ok_total = total <= 16384 + 2048 * w64 + 8 * insz;
+    let ok_max = max <= 32768 + 4 * insz;
+    out.fact("C11", "allocation-bounded-by-weight", ok_total && ok_max, &format!("allocated={} largest={} weight={} input-bytes={}", total, max, w, insz));
+}
+
 /// returns None when the case was discarded by the growth cap
 pub fn run_line(ops: &[OpCode], heap: &HashMap<u16, Value>) -> Option<(String, String)> {
     let bytes = match catch_unwind(|| Covenant::from_ops(ops).to_bytes()) {
@@ -266,7 +282,10 @@ pub fn run_line(ops: &[OpCode], heap: &HashMap<u16, Value>) -> Option<(String, S
     let _ = hooks::take_log();
     hooks::reset_counters();
     let w = melvm::covenant_weight_from_bytes(&bytes);
+    crate::allocs::reset();
     let res = catch_unwind(AssertUnwindSafe(|| run_counted(&decoded, heap, 2_000_000)));
+    let (alloc_total, alloc_max) = crate::allocs::read();
+    LAST_ALLOC.with(|c| c.set((alloc_total, alloc_max, w, bytes.len() as u64 + heap.len() as u64 * 64)));
     let mat = hooks::bytes_materialised();
     let log = hooks::take_log();
     let res_text = match res {
@@ -367,6 +386,7 @@ pub fn exec(r: &mut Rng, n: usize, thorough: bool, out: &mut Out) {
         let ops: Vec<OpCode> = idx.iter().map(|i| alpha[*i].clone()).collect();
         if let Some(l) = run_line(&ops, &heap0) {
             out.emit2(l);
+            alloc_fact(out);
         }
     }
     for len in 1..depth {
@@ -380,6 +400,7 @@ pub fn exec(r: &mut Rng, n: usize, thorough: bool, out: &mut Out) {
             }
             if let Some(l) = run_line(&ops, &heap0) {
                 out.emit2(l);
+                alloc_fact(out);
             }
         }
     }
@@ -420,9 +441,32 @@ pub fn exec(r: &mut Rng, n: usize, thorough: bool, out: &mut Out) {
             fixed.push((vec![PushIC(0u8.into()), Dup, Bez(1), Loop(it, 3), Loop(inner, 2), PushIC(1u8.into()), Add], HashMap::new()));
         }
     }
+    // a rope doubled k times (2^k * 64 bytes, weight ~ 14k) handed to every operand position of the instructions that
+    // have to look at whole byte strings: what they allocate must stay within what the weight pays for
+    for k in [6u16, 10, 14, 16] {
+        let rope = vec![PushB(vec![7u8; 64]), Loop(k, 2), Dup, BAppend];
+        let pk = PushB(vec![3u8; 32]);
+        let msg = PushB(vec![5u8; 8]);
+        let sig = PushB(vec![9u8; 64]);
+        let with = |a: Vec<OpCode>, rest: Vec<OpCode>| {
+            let mut v = a.clone();
+            v.extend(rest);
+            v
+        };
+        // SigEOk pops message (top), public key, signature
+        fixed.push((with(rope.clone(), vec![pk.clone(), msg.clone(), SigEOk(32)]), HashMap::new()));
+        fixed.push((with(vec![sig.clone()], with(rope.clone(), vec![msg.clone(), SigEOk(32)])), HashMap::new()));
+        fixed.push((with(vec![sig.clone(), pk.clone()], with(rope.clone(), vec![SigEOk(32)])), HashMap::new()));
+        fixed.push((with(rope.clone(), vec![Hash(32)]), HashMap::new()));
+        fixed.push((with(rope.clone(), vec![BtoI]), HashMap::new()));
+        fixed.push((with(rope.clone(), vec![BLength]), HashMap::new()));
+        fixed.push((with(rope.clone(), vec![Dup, Eql]), HashMap::new()));
+        fixed.push((with(rope.clone(), vec![PushIC(0u8.into()), Eql]), HashMap::new()));
+    }
     for (ops, heap) in fixed {
         if let Some(l) = run_line(&ops, &heap) {
             out.emit2(l);
+            alloc_fact(out);
         }
     }
     for _ in 0..n {
@@ -430,6 +474,7 @@ pub fn exec(r: &mut Rng, n: usize, thorough: bool, out: &mut Out) {
         let heap = rand_heap(r);
         if let Some(l) = run_line(&ops, &heap) {
             out.emit2(l);
+            alloc_fact(out);
         } else {
             out.discarded += 1;
         }
